@@ -205,6 +205,13 @@ deriving DecidableEq, Repr
 
 abbrev Rounding := Fmt → Rat → Option Rat
 
+/-- The two facts about the rounding function on which the floating-point clauses of the theorems
+rest (explicit hypotheses, never axioms): a rounded result is a value of the format, and every
+binary32 value is a binary64 value. -/
+structure RoundingOK (R : Rounding) : Prop where
+  idem : ∀ F q v, R F q = some v → R F v = some v
+  widen : ∀ v, R Fmt.single v = some v → R Fmt.double v = some v
+
 /-- Whether `x` is a value of rep `r`. -/
 def Val.Holds (R : Rounding) (r : Rep) : Val → Prop
   | .i v => ∃ t, r.intTy? = some t ∧ t.inRange v
@@ -418,26 +425,33 @@ def Res.bind {α β : Type} (r : Res α) (f : α → Res β) : Res β :=
 
 /-! ## Au: mixed operations (quantity.hh:694-832) -/
 
-/-- `get_value<RealPart<T>>(M)` as a value of rep `r`, for an integer magnitude that fits. -/
+/-- `get_value<RealPart<T>>(M)` as a value of rep `r`, for an integer magnitude that fits.
+`Magnitude<>` has its own overload returning `static_cast<T>(1)` (magnitude.hh:542-546); any other
+integer magnitude is computed exactly and converted to `T` (one rounding for a floating `T`). -/
 def getValueRep (R : Rounding) (r : Rep) (m : Mag) : Res Val :=
   match r.intTy?, r.fmt? with
   | some _, _ => .ok (.i (m.natValue : Int))
-  | _, some F => (match R F (m.natValue : Rat) with | some q => .ok (.f q) | none => .nonfinite)
+  | _, some F =>
+    if m = [] then .ok (.f 1)
+    else (match R F (m.natValue : Rat) with | some q => .ok (.f q) | none => .nonfinite)
   | _, _ => .illTyped
 
 /-- The common type `std::common_type_t<Quantity<U1,R1>, Quantity<U2,R2>>`: unit magnitude
 `CommonMagnitudeT<M1, M2>` (`CommonUnit`), rep `common_type_t<R1, R2>`. -/
 def commonQuantity (q1 q2 : Quantity) : Mag × Rep := (Mag.common q1.mag q2.mag, Rep.common q1.rep q2.rep)
 
-/-- `detail::cast_to_common_type<C>(q)` = `rep_cast<C::Rep>(q).as(C::unit)`:
+/-- `detail::cast_to_common_type<C>(q)` = `rep_cast<C::Rep>(q).as(C::unit)` for a quantity of rep
+`r` and value `x` whose unit is `sf` times the common unit:
 `static_cast<CRep>(x) * get_value<CRep>(Magnitude<>)`, then the policy-checked unit-only `as`, i.e.
-`apply_magnitude` by the integer `UnitRatioT<U, CU>` in `CRep`. -/
-def castToCommon (R : Rounding) (cm : Mag) (cr : Rep) (q : Quantity) : Res Val :=
-  let sf := Mag.div q.mag cm
-  ((castTo R q.rep cr q.value).1.bind fun v0 =>
+`apply_magnitude` by the integer `sf = UnitRatioT<U, CU>` in `CRep`. -/
+def scaleToCommon (R : Rounding) (cr : Rep) (sf : Mag) (r : Rep) (x : Val) : Res Val :=
+  ((castTo R r cr x).1.bind fun v0 =>
     (getValueRep R cr []).bind fun one =>
       (mulRep R cr v0 one).bind fun v1 =>                -- rep_cast: apply_magnitude(…, Magnitude<>)
         (getValueRep R cr sf).bind fun k => mulRep R cr v1 k)
+
+def castToCommon (R : Rounding) (cm : Mag) (cr : Rep) (q : Quantity) : Res Val :=
+  scaleToCommon R cr (Mag.div q.mag cm) q.rep q.value
 
 /-- Overload resolution for `q1 op q2` finds, by ADL, the hidden friends `op(Q, Q)` of both
 operand classes (quantity.hh:250-264) and has to decide whether the other operand converts
@@ -497,23 +511,26 @@ def ratioDivide (p q : Period) : Period :=
   let a := p.norm; let b := q.norm
   (Period.mk (a.num * b.den) (a.den * b.num)).norm
 
-/-- `duration_cast<duration<ToRep, ToPeriod>>(d)` restricted to the case `CF::den == 1` (the only
-one the converting constructor admits for integral reps, and the only one reached through
-`common_type`).  `CR = common_type<ToRep, Rep, intmax_t>`.  Returns the count and whether the final
+/-- `duration_cast<duration<ToRep, ToPeriod>>(d)` for a given conversion factor
+`CF = ratio_divide<Period, ToPeriod>`, restricted to the case `CF::den == 1` (the only one the
+converting constructor admits for integral reps, and the only one reached through `common_type`).
+`CR = common_type<ToRep, Rep, intmax_t>`.  Returns the count and whether the final
 `static_cast<ToRep>` changed the value. -/
-def durationCast (R : Rounding) (toRep : Rep) (toPeriod : Period) (d : Duration) : Res Val × Bool :=
-  let cf := ratioDivide d.period toPeriod
-  let cr := Rep.common (Rep.common toRep d.rep) Rep.i64
+def durationCastCF (R : Rounding) (toRep : Rep) (cf : Period) (r : Rep) (x : Val) : Res Val × Bool :=
+  let cr := Rep.common (Rep.common toRep r) Rep.i64
   if cf.den ≠ 1 then (.illTyped, false)
-  else if cf.num = 1 then castTo R d.rep toRep d.count          -- __duration_cast_impl<…, true, true>
+  else if cf.num = 1 then castTo R r toRep x                    -- __duration_cast_impl<…, true, true>
   else                                                           -- __duration_cast_impl<…, false, true>
-    let (c0, _) := castTo R d.rep cr d.count
+    let (c0, _) := castTo R r cr x
     let (k, _) := castTo R Rep.i64 cr (.i (cf.num : Int))
     match c0.bind (fun a => k.bind (fun b => mulRep R cr a b)) with
     | .ok v => castTo R cr toRep v
     | .ub w => (.ub w, false)
     | .nonfinite => (.nonfinite, false)
     | .illTyped => (.illTyped, false)
+
+def durationCast (R : Rounding) (toRep : Rep) (toPeriod : Period) (d : Duration) : Res Val × Bool :=
+  durationCastCF R toRep (ratioDivide d.period toPeriod) d.rep d.count
 
 /-- The result of `d1 op d2` inside chrono, with the flag "some narrowing conversion changed a
 value". -/
